@@ -491,6 +491,13 @@ fn g_extras<T: FloatT>(s: &mut Slot<T>) -> Value {
 }
 
 fn input<T: FloatT>(x: &Value, unit: i64) -> T {
+    // an input is m (the value m / unit) or [m, e] (the value (m / unit) * 2^e: an exact shift, for streams whose dynamic range
+    // exceeds what 31-bit integers can express)
+    if let Some(a) = x.as_array() {
+        let m = a[0].as_i64().expect("integer mantissa");
+        let e = a[1].as_i64().expect("integer exponent") as i32;
+        return T::from_ratio(m, unit) * T::from(2.0f64.powi(e)).expect("power of two");
+    }
     T::from_ratio(x.as_i64().expect("integer input"), unit)
 }
 
